@@ -286,6 +286,27 @@ def hostile_requests(rng):
         plen = struct.unpack("!H", f[18:20])[0]
         for t in (plen - 1, plen + 1, 0, 8):
             fr.append(patch(f, 18, struct.pack("!H", t & 0xFFFF)))
+    # IPv6 extension headers (hop-by-hop 0, routing 43, destination options 60, fragment 44) in front of an answerable
+    # upper layer: the next-header value of the IPv6 header is then not one of the handled protocols
+    def ext(nh, body=b"\x01\x04\0\0\0\0", second=0):
+        return bytes([nh, second]) + body
+    uppers = [(58, net.icmp6(s6, d6, 128, 0, b"\x12\x34\0\x01abcdefgh")), (58, net.icmp6(s6, d6, 129, 0, net.icmp6(s6, d6, 128, 0, b"\0\1\0\2data"))),
+              (6, net.tcp(net.ip_bytes(s6), net.ip_bytes(d6), 43000, 80, 1, 0, 0x02)),
+              (17, net.udp(net.ip_bytes(s6), net.ip_bytes(d6), 43000, 53, dns_query()))]
+    for nh, upper in uppers:
+        for chain in ([0], [60], [43], [44], [0, 60], [44, 60], [60, 44]):
+            for second in (0, 1):
+                pl, nxt = upper, nh
+                for h in reversed(chain):
+                    pl = ext(nxt, second=(second if h == 44 else 0)) + pl
+                    nxt = h
+                fr.append(net.eth(net.MAC_SELF, net.MAC_PEER, 0x86DD, net.ipv6(s6, d6, chain[0], pl)))
+    # data segments that advertise a tiny receive window (the answer must not depend on it)
+    for v6 in (False, True):
+        s, d = addr_pair(v6)
+        for k, win in enumerate((0, 1, 100, 229, 400, 65535)):
+            for j, req in enumerate((http_req(), SMB1_NEG, SMB2_NEG, rpc_call(xid=0x81000001, vers=4, proc=4, tcp=True))):
+                fr += handshake((5, 6), s, d, 44000 + 10 * k + j, 445, [req], window=win)
     return fr
 
 
